@@ -34,6 +34,8 @@ def make_ops(model: Model):
             return False
         if isinstance(a, ast.Subscript) and isinstance(a.slice, ast.Slice):
             return True
+        if isinstance(a, ast.Subscript) and isinstance(a.value, ast.Name) and texty(f, a.value, depth + 1):
+            return True
         if isinstance(a, ast.Call) and isinstance(a.func, ast.Attribute) and a.func.attr in TEXTY:
             return True
         if isinstance(a, ast.Name):
